@@ -1,1 +1,6 @@
 //! Facade for `handler/*`.
+pub use crate::handler::{
+    ConnectionDirection, Handler, HandlerIn, HandlerOut, NodeAddress, NodeContact, WhoAreYouRef,
+};
+pub use crate::rpc::{Message, Request, RequestBody, RequestId, Response, ResponseBody};
+pub use crate::socket::VirtualWire;
